@@ -1,0 +1,14 @@
+//go:build verif
+
+package desync
+
+// VerifHook is installed by the verification harness (build tag verif). It is called at every
+// verifYield point with the point's name and alternating key/value pairs describing the step that was
+// just taken; it may block, which makes every point a scheduler gate.
+var VerifHook func(point string, kv ...interface{})
+
+func verifYield(point string, kv ...interface{}) {
+	if h := VerifHook; h != nil {
+		h(point, kv...)
+	}
+}
